@@ -292,9 +292,16 @@ func leafValuesValid(sn schema.Node, n datanode.DataNode, path string, bad *[]st
 	if depth > 30 || sn == nil {
 		return
 	}
+	seen := map[string]bool{}
+	_, parentIsList := sn.(schema.List)
 	for _, k := range n.YangDataChildrenNoSorting() {
 		csn := sn.Child(k.YangDataName())
 		p := path + "/" + k.YangDataName()
+		// a node occurs once under its parent (entries of a list excepted: they are told apart by their keys)
+		if seen[k.YangDataName()] && !parentIsList {
+			*bad = append(*bad, p+": the decoded tree has this node twice under one parent")
+		}
+		seen[k.YangDataName()] = true
 		if csn == nil {
 			*bad = append(*bad, p+": no such schema node")
 			continue
@@ -579,6 +586,24 @@ func jsonTokens(b []byte) []string {
 	return toks
 }
 
+// xmlElementEnd: index of the end tag that closes the start tag at toks[i] (-1 if none).
+func xmlElementEnd(toks []string, i int) int {
+	depth := 0
+	for j := i; j < len(toks); j++ {
+		t := toks[j]
+		switch {
+		case strings.HasPrefix(t, "</"):
+			depth--
+			if depth == 0 {
+				return j
+			}
+		case strings.HasPrefix(t, "<") && !strings.HasSuffix(t, "/>"):
+			depth++
+		}
+	}
+	return -1
+}
+
 func xmlTokens(b []byte) []string {
 	var toks []string
 	s := string(b)
@@ -702,6 +727,22 @@ func run(c *engine.Ctx) {
 				for ai, a := range alpha {
 					rep := strings.Join(append(append(append([]string{}, toks[:i]...), a), toks[i+1:]...), "")
 					doIn(fmt.Sprintf("rep:%d:%s:%d:%d", ti, encNames[enc], i, ai), []byte(rep))
+				}
+				// XML: the element that starts here once more right behind itself, in the same and in
+				// another namespace (a leaf or container may occur once; a foreign namespace is no excuse)
+				if enc == encoding.XML && strings.HasPrefix(toks[i], "<") && !strings.HasPrefix(toks[i], "</") && !strings.HasSuffix(toks[i], "/>") && i > 0 {
+					if end := xmlElementEnd(toks, i); end > 0 {
+						elem := append([]string{}, toks[i:end+1]...)
+						for ni, ns := range []string{"", "urn:other", "urn:b"} {
+							cp := append([]string{}, elem...)
+							if ns != "" {
+								name := strings.Fields(strings.Trim(cp[0], "<>"))[0]
+								cp[0] = "<" + name + " xmlns=\"" + ns + "\">"
+							}
+							rep := strings.Join(toks[:end+1], "") + strings.Join(cp, "") + strings.Join(toks[end+1:], "")
+							doIn(fmt.Sprintf("xmlrep:%d:%d:%d", ti, i, ni), []byte(rep))
+						}
+					}
 				}
 				// a value written with a module name in front of it, as identities are: only an
 				// identityref may lose that prefix again
